@@ -20,6 +20,7 @@ import (
 	"verif/checker/internal/controls"
 	"verif/checker/internal/ir"
 	"verif/checker/internal/load"
+	"verif/checker/internal/normalize"
 	"verif/checker/internal/report"
 	"verif/checker/internal/rules"
 )
@@ -39,6 +40,8 @@ func main() {
 		verifDir  = flag.String("verif", "/verif", "verif directory (for replay files, seeded patches)")
 		goarch    = flag.String("goarch", "", "GOARCH for loading")
 		dump      = flag.String("dump", "", "debug: print the SSA of functions whose qualified name contains this string")
+		noNorm    = flag.Bool("no-normalize", false, "do not inline helper functions that are not in the pinned tree's vocabulary")
+		showNorm  = flag.Bool("show-normalized", false, "debug: print the normalised overlay files and exit")
 	)
 	flag.Parse()
 	start := time.Now()
@@ -75,6 +78,60 @@ func main() {
 		fatal("CHECK-ERROR cannot load %s: %v", *repo, err)
 	}
 
+	// normalisation: undo extract-function refactorings (see internal/normalize)
+	var normNotes []string
+	if !*noNorm && *dump != "@vocab" {
+		cur := map[string][]byte{}
+		for k, v := range ov {
+			cur[k] = v
+		}
+		counter := 0
+		for round := 0; round < 5; round++ {
+			res := normalize.Round(prog, rules.CanonicalName(prog), cur, &counter)
+			for _, sk := range res.Skipped {
+				normNotes = append(normNotes, "left alone: "+sk)
+			}
+			if len(res.Overlay) == 0 {
+				break
+			}
+			next := map[string][]byte{}
+			for k, v := range cur {
+				next[k] = v
+			}
+			for k, v := range res.Overlay {
+				next[k] = v
+			}
+			prog2, err2 := load.Load(load.Options{Dir: *repo, Overlay: next, GOARCH: *goarch})
+			if err2 != nil {
+				normNotes = append(normNotes, fmt.Sprintf("normalisation round %d abandoned (overlay does not type-check: %v)", round+1, err2))
+				if *showNorm {
+					for k, v := range res.Overlay {
+						fmt.Printf("==== %s\n%s\n", k, v)
+					}
+				}
+				break
+			}
+			prog, cur = prog2, next
+			for _, in := range res.Inlined {
+				normNotes = append(normNotes, "inlined for analysis: "+in)
+			}
+		}
+		if *showNorm {
+			for k, v := range cur {
+				fmt.Printf("==== %s\n%s\n", k, v)
+			}
+			for _, n := range normNotes {
+				fmt.Println("NOTE", n)
+			}
+			return
+		}
+	}
+	normNotes = append(normNotes, rules.CanonNotes(prog)...)
+
+	if *dump == "@vocab" {
+		dumpVocab(prog)
+		return
+	}
 	if *dump != "" {
 		for _, fn := range prog.ClosureFuncs() {
 			var walk func(f *ssa.Function)
@@ -261,6 +318,7 @@ func main() {
 		"file_digests":       prog.Digests,
 		"samples":            samples,
 		"known_findings":     knownHits,
+		"normalisation":      normNotes,
 		"checker_cmd":        strings.Join(os.Args, " "),
 		"trusted_base":       []string{"Go type checker", "go/ssa construction (x/tools v0.29.0)", "semantics of defer/recover, range, append, copy", "stdlib: strconv.Parse*, strings.Fields/Split/SplitN/TrimSpace/HasPrefix, os.Getenv, os.Exit"},
 	}
